@@ -70,6 +70,8 @@ pub(crate) struct InternalStorage<Db: Database> {
     pub(crate) param_id_to_index: DashMap<ParamId, Index<ParamId>>,
     pub(crate) derived_node_id_to_revision: DashMap<DerivedNodeId, DerivedNodeRevision>,
     pub(crate) source_node_key_to_index: DashMap<Key, Index<SourceNode>>,
+    /// The epoch in which a (currently absent) source was last removed.
+    pub(crate) source_node_key_to_removed_epoch: DashMap<Key, Epoch>,
 
     pub(crate) derived_nodes: BoxcarVec<DerivedNode<Db>>,
     pub(crate) derived_node_dependencies: BoxcarVec<Vec<Dependency>>,
@@ -92,6 +94,7 @@ impl<Db: Database> Storage<Db> {
                 param_id_to_index: DashMap::new(),
                 derived_node_id_to_revision: DashMap::new(),
                 source_node_key_to_index: DashMap::new(),
+                source_node_key_to_removed_epoch: DashMap::new(),
 
                 source_nodes: BoxcarVec::new(),
                 derived_nodes: BoxcarVec::new(),
@@ -132,7 +135,15 @@ impl<Db: Database> Storage<Db> {
     }
 
     fn get_impl<T: 'static>(&self, key: Key) -> Option<&T> {
-        let source_node = self.internal.get_source_node(key)?;
+        let Some(source_node) = self.internal.get_source_node(key) else {
+            // The caller observes that the source is absent, so it must be re-executed
+            // once the source is set.
+            self.register_dependency_in_parent_memoized_fn(
+                NodeKind::Source(key),
+                self.internal.source_removed_epoch(key),
+            );
+            return None;
+        };
 
         self.register_dependency_in_parent_memoized_fn(
             NodeKind::Source(key),
@@ -350,8 +361,11 @@ impl<Db: Database> InternalStorage<Db> {
                 }
             }
             Entry::Vacant(vacant_entry) => {
+                // A memoized function may have observed that this source was absent,
+                // so going from absent to present is a change.
+                let next_epoch = self.current_epoch.increment();
                 let index = self.insert_source_node(SourceNode {
-                    time_updated: self.current_epoch,
+                    time_updated: next_epoch,
                     value: Box::new(source),
                 });
                 vacant_entry.insert(index);
@@ -359,9 +373,20 @@ impl<Db: Database> InternalStorage<Db> {
         }
     }
 
+    /// The epoch in which an absent source was last removed, or the initial epoch
+    /// if it never existed.
+    pub(crate) fn source_removed_epoch(&self, key: Key) -> Epoch {
+        self.source_node_key_to_removed_epoch
+            .get(&key)
+            .map(|epoch| *epoch)
+            .unwrap_or_default()
+    }
+
     pub fn remove_source<T>(&mut self, id: SourceId<T>) {
         if let Some((_, index)) = self.source_node_key_to_index.remove(&id.key) {
-            self.current_epoch.increment();
+            let removed_epoch = self.current_epoch.increment();
+            self.source_node_key_to_removed_epoch
+                .insert(id.key, removed_epoch);
             self.source_nodes
                 .get_mut(index.idx)
                 .expect(
